@@ -1,12 +1,17 @@
 package props
 
 import (
+	"encoding/hex"
 	"fmt"
+	"strings"
 	"testing"
+
+	"github.com/spf13/afero"
 
 	"pgregory.net/rapid"
 
 	"github.com/xakep666/ps3netsrv-go/verif/hx"
+	"github.com/xakep666/ps3netsrv-go/verif/refcrypt"
 )
 
 // ---- C02: served bytes equal stored bytes -------------------------------------
@@ -222,4 +227,160 @@ func runC02(c hx.SessionCase, st *hx.Stats) error {
 func TestC02Plain(t *testing.T) {
 	st := hx.NewStats("C02", "plain")
 	hx.RunProp(t, st, genC02, runC02, hx.PropOpts{WriteAhead: true})
+}
+
+// ---- non-plain objects: generated images and decrypted views over the network --------------
+
+type c02ObjCase struct {
+	Tree    *hx.Node          `json:"tree"` // source of the generated image
+	PS3     bool              `json:"ps3"`
+	TitleID string            `json:"title_id,omitempty"`
+	Key     hx.BStr           `json:"key"`
+	Regions []refcrypt.Region `json:"regions"`
+	Sectors int               `json:"sectors"`
+	Seed    uint64            `json:"seed"`
+	K3y     bool              `json:"k3y"` // the encrypted image is a 3k3y one (embedded key) instead of PS3ISO + .dkey
+	Reqs    []hx.Req          `json:"reqs"`
+}
+
+// maskedImage compares image bytes outside the fields that vary between opens (C18 mask).
+type maskedImage struct {
+	data []byte
+	ps3  bool
+}
+
+func (m maskedImage) Size() int64 { return int64(len(m.data)) }
+func (m maskedImage) ReadAt(off int64, n int) ([]byte, bool) {
+	return hx.BytesObj(m.data).ReadAt(off, n)
+}
+func (m maskedImage) masked(abs int64) bool {
+	s, o := abs/2048, abs%2048
+	if (s == 16 || s == 17) && o >= 813 && o <= 846 {
+		return true
+	}
+	return m.ps3 && s == 1 && o >= 64 && o < 512
+}
+func (m maskedImage) Match(off int64, got []byte) bool {
+	exp, _ := m.ReadAt(off, len(got))
+	if len(exp) != len(got) {
+		return false
+	}
+	for i := range got {
+		if got[i] != exp[i] && !m.masked(off+int64(i)) {
+			return false
+		}
+	}
+	return true
+}
+
+func genC02Obj(t *rapid.T) c02ObjCase {
+	c := c02ObjCase{Tree: genSmallIsoTree(t), PS3: rapid.IntRange(0, 2).Draw(t, "ps3") == 0, Key: hx.BStr(rapid.SliceOfN(rapid.Byte(), 16, 16).Draw(t, "key")),
+		Sectors: rapid.IntRange(6, 80).Draw(t, "sectors"), Seed: rapid.Uint64Range(1, 1<<40).Draw(t, "seed"), K3y: rapid.IntRange(0, 3).Draw(t, "k3y") == 0}
+	if c.PS3 {
+		c.TitleID = genTitleID(t)
+	}
+	c.Regions = genRegions(t, c.Sectors)
+	if c.K3y {
+		for c.Regions[0].End < 3 {
+			for i := range c.Regions {
+				if i > 0 {
+					c.Regions[i].Start++
+				}
+				c.Regions[i].End++
+			}
+		}
+	}
+	imgPath := "/***DVD***/t"
+	if c.PS3 {
+		imgPath = "/***PS3***/t"
+	}
+	encPath := "/PS3ISO/e.iso"
+	if c.K3y {
+		encPath = "/k3y.iso"
+	}
+	cur := ""
+	n := rapid.IntRange(3, 24).Draw(t, "nreq")
+	for i := 0; i < n; i++ {
+		l := fmt.Sprintf("r%d", i)
+		k := rapid.IntRange(0, 9).Draw(t, l+"-k")
+		switch {
+		case cur == "" || k == 0:
+			cur = rapid.SampledFrom([]string{imgPath, imgPath, encPath, encPath, "/plain.bin"}).Draw(t, l+"-obj")
+			c.Reqs = append(c.Reqs, hx.Req{Op: "OPEN_FILE", Path: hx.BStr(cur)})
+		case k == 1:
+			c.Reqs = append(c.Reqs, hx.Req{Op: rapid.SampledFrom([]string{"STAT", "OPEN_DIR", "DIR_SIZE"}).Draw(t, l+"-other"), Path: "/t"})
+		default:
+			size := int64(c.Sectors * 2048)
+			if cur == imgPath {
+				size = 140 * 2048 // around the typical image size; the model knows the true one
+			} else if cur == "/plain.bin" {
+				size = 5000
+			}
+			r := genC02Read(t, size, l)
+			if r.Op == "READ_CRIT" && cur == imgPath && int64(r.Off)+int64(r.N) > 60*2048 {
+				r.Off, r.N = uint64(rapid.IntRange(0, 50*2048).Draw(t, l+"-io")), uint32(rapid.IntRange(0, 9*2048).Draw(t, l+"-in"))
+			}
+			c.Reqs = append(c.Reqs, r)
+		}
+	}
+	return c
+}
+
+func runC02Obj(c c02ObjCase, st *hx.Stats) error {
+	tree := c.Tree
+	if c.PS3 {
+		tree = withPS3(tree, c.TitleID, nil)
+	}
+	stored := hx.PRFBytes(c.Seed, 0, c.Sectors*2048)
+	copy(stored, refcrypt.EncodeTable(c.Regions))
+	if c.K3y {
+		copy(stored[0xF70:], wmEnc)
+		copy(stored[0xF80:], []byte(c.Key))
+	}
+	root := hx.Dir("", &hx.Node{Name: "t", Kind: "dir", Children: tree.Children}, hx.File("plain.bin", 5000, 77))
+	if c.K3y {
+		root.Children = append(root.Children, hx.RawFile("k3y.iso", stored))
+	} else {
+		root.Children = append(root.Children, hx.Dir("PS3ISO", hx.RawFile("e.iso", stored), hx.RawFile("e.dkey", []byte(hex.EncodeToString([]byte(c.Key))))))
+	}
+	tab := refcrypt.Table{Plain: c.Regions, Bytes: 8 + 8*len(c.Regions)}
+	a, _ := refcrypt.Plaintext(stored, []byte(c.Key), tab, false, false)
+	b, _ := refcrypt.Plaintext(stored, []byte(c.Key), tab, false, true)
+	if c.K3y {
+		a, b = mask3k3y(a), mask3k3y(b)
+	}
+	var canon []byte
+	sc := hx.SessionCase{Tree: root, Reqs: c.Reqs, Transport: "sync"}
+	kind := "image"
+	c02Classify(sc, st, kind)
+	h := hx.SessionHooks{Prepare: func(rootDir string, m *hx.Model) {
+		// canonical image through the library (its agreement with the source tree is C07's subject)
+		fx := &isoFixture{Tmp: rootDir, Fs: afero.NewBasePathFs(afero.NewOsFs(), rootDir), Root: "/t"}
+		canon, _ = fetchImage(fx, c.PS3, "lib")
+		m.ObjFor = func(clean string) hx.Obj {
+			switch {
+			case strings.HasPrefix(clean, "/***") && canon != nil:
+				return maskedImage{canon, c.PS3}
+			case clean == "/PS3ISO/e.iso" || clean == "/k3y.iso":
+				return hx.MultiObj{a, b}
+			}
+			return nil
+		}
+	}}
+	for _, r := range c.Reqs {
+		if r.Op == "OPEN_FILE" {
+			switch {
+			case strings.Contains(string(r.Path), "***"):
+				st.Label("object=generated image")
+			case strings.HasSuffix(string(r.Path), ".iso"):
+				st.Label("object=decrypted view")
+			}
+		}
+	}
+	return hx.RunSession(sc, st, h)
+}
+
+func TestC02Objects(t *testing.T) {
+	st := hx.NewStats("C02", "objects")
+	hx.RunProp(t, st, genC02Obj, runC02Obj, hx.PropOpts{WriteAhead: true})
 }
